@@ -122,23 +122,23 @@ func Jobs(mode string, plan []LenPlan) []Job {
 
 // ShardResult is what one worker process reports.
 type ShardResult struct {
-	Scenarios     int            `json:"scenarios"`
-	Completed     int            `json:"completed"`
-	Execs         int64          `json:"execs"`
-	Transitions   int64          `json:"transitions"`
-	Switched      int64          `json:"switched"`
-	Kinds         map[string]int `json:"kinds"`
-	MaxCost       int            `json:"max_cost"`
-	MaxSteps      int            `json:"max_steps"`
-	Exhaustive    bool           `json:"exhaustive"`
-	MultiOutcome  []string       `json:"multi_outcome,omitempty"` // scenarios whose response depended on the schedule
-	Found         []explore.Found `json:"found,omitempty"`
-	SigCounts     map[string]int `json:"sig_counts"`
+	Scenarios     int              `json:"scenarios"`
+	Completed     int              `json:"completed"`
+	Execs         int64            `json:"execs"`
+	Transitions   int64            `json:"transitions"`
+	Switched      int64            `json:"switched"`
+	Kinds         map[string]int   `json:"kinds"`
+	MaxCost       int              `json:"max_cost"`
+	MaxSteps      int              `json:"max_steps"`
+	Exhaustive    bool             `json:"exhaustive"`
+	MultiOutcome  []string         `json:"multi_outcome,omitempty"` // scenarios whose response depended on the schedule
+	Found         []explore.Found  `json:"found,omitempty"`
+	SigCounts     map[string]int   `json:"sig_counts"`
 	PerLen        map[int][3]int64 `json:"per_len"` // len -> scenarios, execs, completed
-	FaultCases    int            `json:"fault_cases"`
-	NontrivialSch int            `json:"scenarios_with_more_than_one_schedule"`
-	Samples       []any          `json:"samples,omitempty"`
-	Broken        string         `json:"broken,omitempty"`
+	FaultCases    int              `json:"fault_cases"`
+	NontrivialSch int              `json:"scenarios_with_more_than_one_schedule"`
+	Samples       []any            `json:"samples,omitempty"`
+	Broken        string           `json:"broken,omitempty"`
 }
 
 func argValue(name string) string {
@@ -268,7 +268,13 @@ func HarnessMain(w Wiring) {
 			if len(tr) > 25 {
 				tr = tr[:25]
 			}
-			res.Samples = append(res.Samples, map[string]any{"case": j.Case, "pb": j.Bound, "schedules": st.Execs, "default_schedule_prefix": tr})
+			var reps []string
+			for _, n := range j.Case.List {
+				l, _ := letter(n)
+				reps = append(reps, l.JSON)
+			}
+			res.Samples = append(res.Samples, map[string]any{"case": j.Case, "representations": reps, "reference": Reference(mode, j.Case.Reps(), j.Case.Fault).Want,
+				"preemption_bound": boundName(j.Bound), "schedules_explored": st.Execs, "canonical_schedule_prefix": tr})
 		}
 	}
 	json.NewEncoder(os.Stdout).Encode(res)
